@@ -8,7 +8,7 @@ by calling beanquery.
 E  tables   for each of the 12 column datatypes (int, decimal, str, date, bool, set, dict, object, Amount,
             Position, Cost, Inventory): every column of 0..3 cells over the datatype's alphabet (NULL,
             negatives, zero, differing precision, numbers whose rounding to the display precision carries into a new
-            leading digit, cost labels of different lengths, 1/3, scientific notation, six currencies, empty / multi-lot /
+            leading digit, cost labels of different lengths, single-position inventories before and after multi-lot ones of the same commodity, 1/3, scientific notation, six currencies, empty / multi-lot /
             seven-slot inventories ...), once with a one-letter header and once with a 20-letter header (quick
             tier: 0..2 cells under the long header);
             every ordered pair of datatypes side by side with 1..2 rows over reduced alphabets; the empty
@@ -109,6 +109,9 @@ def alphabets(seed, thorough):
     invmix = I(P('2', 'HOOL'), P('30.00', 'USD'))     # HOOL without cost, while other rows hold it at cost
     inv7 = I(P('1', 'USD'), P('2', 'EUR'), hool2, hool3, P('4.5', 'GBP'), P('5', 'CAD'), P('600', 'JPY'))
     inv_carry = I(P(carry, 'USD'), hool2)
+    # a whole inventory that is ONE position of a commodity of which other rows (inv3, inv7) hold two lots
+    one_hool_cost = I(P('5', 'HOOL', C('3.00', 'USD', d1)))
+    one_hool = I(P('3', 'HOOL'))
     plus = (lambda *v: list(v)) if thorough else (lambda *v: [])
     full = {
         'int': [None, -300, 0, o_int, o_big],
@@ -124,7 +127,7 @@ def alphabets(seed, thorough):
         'position': [None, hool1, P('-3', 'USD'), hool2, P('7', 'EUR'), P('-2.80750', 'USD'), P(carry, 'USD'), P('1', 'HOOL', C(carry, 'USD', d1))],
         'cost': [None, C('2.50', 'USD', d1, 'lbl'), C('3.00', 'USD', d1), C('1234.5678', 'EUR', d2), C(carry, 'USD', d1, 'x'),
                  C('3.00', 'USD', d2, long_label)],      # labels of 1, 3 and 13 letters and none, in every row order
-        'inventory': [None, I(), I(P('1', 'USD')), invmix, inv2, inv3, inv7, inv_carry] + plus(I(P('-8.80750', 'USD'), P('7', 'EUR'), hool1, hool2)),
+        'inventory': [None, I(), I(P('1', 'USD')), one_hool_cost, one_hool, invmix, inv2, inv3, inv7, inv_carry] + plus(I(P('-8.80750', 'USD'), P('7', 'EUR'), hool1, hool2)),
     }
     reduced = {
         'int': [None, -300, o_int],
@@ -138,7 +141,7 @@ def alphabets(seed, thorough):
         'amount': [None, A(o_amt, 'USD'), A('-1000', 'HOOL'), A('3.14159', 'USD'), A(carry, 'USD')] + plus(A('0', 'EUR')),
         'position': [None, hool1, P('-3', 'USD')],
         'cost': [None, C('2.50', 'USD', d1, 'lbl'), C('1234.5678', 'EUR', d2), C('3.00', 'USD', d2, long_label)],
-        'inventory': [None, I(), invmix, inv2, inv3],
+        'inventory': [None, I(), one_hool_cost, invmix, inv2, inv3],
     }
     return full, reduced
 
